@@ -26,9 +26,15 @@
   fails a transition, whether the event loop deletes the pending-teardown entry
   before or after TeardownEnvironment re-registers) are oracle arguments.
 
-  Not modelled here: executor/agent failure and reconciliation (C18), automatic
-  environments, the kill acknowledgements' blocking (KILL is answered at once:
-  fairness premise "the master eventually reports killed tasks").
+  Executor / agent failure (Mesos FAILURE event → HandleExecutorFailed /
+  HandleAgentFailed, the status update TASK_RUNNING re-filling agentId / executorId)
+  and the environment's workflow watcher (subscribeToWfState: GO_ERROR and STOP of the
+  RUNNING tasks 0.5 s after a critical task went to ERROR) are steps of their own
+  (`hostLost`, `watchError`); whether a watcher is still alive is left to the caller.
+
+  Not modelled here: reconciliation (C18), automatic environments, the kill
+  acknowledgements' blocking (KILL is answered at once: fairness premise "the
+  master eventually reports killed tasks").
 -/
 import ControlModel.Basic
 
@@ -95,6 +101,7 @@ structure MTask where
   id : TaskId
   label : EnvId              -- environmentId label it was launched with
   role : Nat                 -- index of the role it was launched for
+  host : Host := 0           -- the agent it was launched on
   mesos : Mesos
   killed : Bool              -- a KILL call named it
   deriving DecidableEq, Repr, Inhabited
@@ -444,6 +451,49 @@ def destroy (s : State) (k : EnvId) (force allow keep : Bool) (o : DOracle) : St
     destroyRest (destroyStop s k E allow o.stopFails).1 (destroyStop s k E allow o.stopFails).2.1
       (destroyStop s k E allow o.stopFails).2.2 k E keep o
 
+/-! ### executor / agent lost, the workflow watcher -/
+
+/-- manager.go `HandleExecutorFailed` / `HandleAgentFailed` (`agent`) on one roster entry:
+    executorId resp. agentId is blanked ("causes IsLocked() to become false for sure"), the
+    task goes to ERROR and INACTIVE. The parent role stays. -/
+def Task.lose (agent : Bool) (t : Task) : Task :=
+  if agent then { t with agent := false, active := false, state := .ERROR }
+  else { t with executor := false, active := false, state := .ERROR }
+
+/-- The roster entries a failure on host `h` names: the core runs one executor per agent and
+    re-uses it while it lives, so the tasks carrying the failed executor's id are those on the
+    host whose executorId (resp. agentId) has not been blanked by an earlier failure. -/
+def Task.hitBy (agent : Bool) (h : Host) (t : Task) : Bool :=
+  decide (t.host = h) && (if agent then t.agent else t.executor)
+
+/-- A Mesos FAILURE event for the executor on host `h` (`agent`: for the agent itself): every
+    task it ran has ended, the roster entries carrying its id are marked as above; a lost agent
+    makes no more offers. -/
+def hostLost (s : State) (h : Host) (agent : Bool) : State :=
+  { s with roster := s.roster.map (fun t => if t.hitBy agent h then t.lose agent else t),
+           master := s.master.map (fun m => if m.host = h then { m with mesos := .terminal } else m),
+           hosts := if agent then s.hosts.filter (fun x => decide (x ≠ h)) else s.hosts }
+
+/-- Several such failures, one after the other (`true`: the agent). -/
+def lostAll (s : State) (ls : List (Host × Bool)) : State := ls.foldl (fun a l => hostLost a l.1 l.2) s
+
+/-- environment.go `subscribeToWfState`, 0.5 s after the workflow of a successfully created
+    environment reported ERROR for the first time: GO_ERROR (the state is forced if the
+    transition is refused), then STOP for the environment's tasks that are RUNNING. `fails`:
+    the tasks that answer the STOP with an error. -/
+def watchError (s : State) (k : EnvId) (fails : List (TaskId × Bool)) : State :=
+  match s.env? k with
+  | none => s
+  | some E =>
+    if E.tearing then s else
+    setEnv { s with roster := s.roster.map (fun t =>
+        if decide (t.id ∈ E.tasks) && decide (t.parent = some E.id) && decide (t.state = .RUNNING) then
+          match fails.lookup t.id with
+          | some true => { t with state := .ERROR }
+          | some false => t
+          | none => { t with state := .CONFIGURED }
+        else t) } k (fun X => { X with state := .ERROR })
+
 /-! ### creation -/
 
 /-- Descriptors: the task and hook roles of a workflow, with their role index. -/
@@ -523,6 +573,7 @@ structure SettleOracle where
   cfgFails : List (Nat × Bool) := []         -- role index ↦ fails CONFIGURE (true: ends in ERROR)
   late : Bool := false                       -- rendezvous race in the failure path's teardown
   hookFails : List TaskId := []              -- hook tasks answering TriggerHook with an error (failure path's teardown)
+  lost : List (Host × Bool) := []            -- executors / agents (`true`) lost while the tasks were being configured
   deriving Repr, Inhabited
 
 def launchOf (o : SettleOracle) (i : Nat) : LaunchOut := (o.launches.lookup i).getD {}
@@ -561,7 +612,7 @@ def acquire (s : State) (k : EnvId) (spec : EnvSpec) (claims : List (Nat × Task
       active := if deployOk then true else ((launchOf o x.1).active && decide ((launchOf o x.1).mesos = .running)),
       state := if (launchOf o x.1).mesos = .terminal then .ERROR else .STANDBY })
   let newM : List MTask := fresh.map (fun x =>
-    { id := x.2.2, label := k, role := x.1, mesos := (launchOf o x.1).mesos, killed := false })
+    { id := x.2.2, label := k, role := x.1, host := x.2.1.host, mesos := (launchOf o x.1).mesos, killed := false })
   let cids := claims.map (·.2)
   let idOf := fun (i : Nat) => match claims.lookup i with
     | some t => some t
@@ -575,14 +626,15 @@ def acquire (s : State) (k : EnvId) (spec : EnvSpec) (claims : List (Nat × Task
   { s := setEnv s1 k (fun X => { X with tasks := ids, hooks := hooks }), ids := ids, deployOk := deployOk, idOf := idOf }
 
 /-- The CONFIGURE transition that ends a creation: the before_CONFIGURE calls are started,
-    the tasks are commanded. -/
+    the tasks are commanded. `o.lost`: executors / agents lost before the outcome of the transition
+    is known (the tasks they ran have answered; the watcher is not subscribed yet). -/
 def createConfigure (s : State) (k : EnvId) (spec : EnvSpec) (a : Acq) (o : SettleOracle) : State × Res :=
   match s.env? k with
   | none => (s, .noop)
   | some E =>
     let fails := o.cfgFails.filterMap (fun f => (a.idOf f.1).map (fun t => (t, f.2)))
     let r := applyTrans s { E with state := .DEPLOYED } .CONFIGURE fails
-    let s3 := setEnv r.1 k (fun X => { X with pending := X.pending + callCount spec, started := X.started + callCount spec })
+    let s3 := lostAll (setEnv r.1 k (fun X => { X with pending := X.pending + callCount spec, started := X.started + callCount spec })) o.lost
     if r.2 then (setEnv s3 k (fun X => { X with state := .CONFIGURED }), .okState .CONFIGURED)
     else createFail s3 k a.ids o.late .errConfigure o.hookFails
 
@@ -607,11 +659,12 @@ def createSettle (s : State) (k : EnvId) (o : SettleOracle) : State × Res :=
     if !a.deployOk then createFail a.s k a.ids o.late .errDeploy o.hookFails
     else createConfigure a.s k p.spec a o
 
-/-- The simulated tasks of environment `k` held at launch finish starting. -/
+/-- The simulated tasks of environment `k` held at launch finish starting
+    (updateTaskStatus, TASK_RUNNING: status ACTIVE, agentId and executorId taken from the update). -/
 def mesosStart (s : State) (k : EnvId) : State :=
   let ids := (s.master.filter (fun m => decide (m.label = k) && decide (m.mesos = .staging))).map (·.id)
   { s with master := s.master.map (fun m => if m.id ∈ ids then { m with mesos := .running } else m),
-           roster := s.roster.map (fun t => if t.id ∈ ids then { t with active := true } else t) }
+           roster := s.roster.map (fun t => if t.id ∈ ids then { t with active := true, agent := true, executor := true } else t) }
 
 /-! ### steps -/
 
@@ -626,6 +679,9 @@ inductive Step where
   | cleanup
   | killIds (ids : List TaskId)
   | mesosStart (k : EnvId)
+  | execLost (h : Host)                                  -- FAILURE{agent, executor}
+  | agentLost (h : Host)                                 -- FAILURE{agent}
+  | watchError (k : EnvId) (fails : List (TaskId × Bool))
   deriving Repr, Inhabited
 
 /-! ### the pendingTeardownsCh rendezvous as a schedule
@@ -719,6 +775,9 @@ def step (s : State) (st : Step) : State × Res :=
   | .cleanup => (cleanup s, .ok)
   | .killIds ids => (cleanupTasks s ids, .ok)
   | .mesosStart k => (mesosStart s k, .ok)
+  | .execLost h => (hostLost s h false, .ok)
+  | .agentLost h => (hostLost s h true, .ok)
+  | .watchError k fails => (watchError s k fails, .ok)
 
 def run (s : State) : List Step → State
   | [] => s
